@@ -333,18 +333,19 @@ type checker struct {
 	budget     int
 	runTimeout time.Duration
 
-	mu            sync.Mutex
-	stats         *core.Stats
-	viol          map[string]*core.ReplayFile // by signature
-	violCount     map[string]int
-	watchdogKills int
-	hangKills     int
-	aborted       bool
-	procs         map[int]*exec.Cmd
-	hangNotes     []string
-	oomDeaths     int
-	knownSeen     map[string]bool
-	regressionRan int
+	mu               sync.Mutex
+	stats            *core.Stats
+	viol             map[string]*core.ReplayFile // by signature
+	violCount        map[string]int
+	watchdogKills    int
+	hangKills        int
+	aborted          bool
+	procs            map[int]*exec.Cmd
+	hangNotes        []string
+	oomDeaths        int
+	unconfirmedKills int
+	knownSeen        map[string]bool
+	regressionRan    int
 }
 
 type workerSpec struct {
@@ -816,9 +817,24 @@ func (ck *checker) confirmDeath(cs core.Case, reason string, spec workerSpec) {
 	switch {
 	case ended == "returned":
 		if reason == "watchdog" {
-			// finished when alone with 3x the budget: machinery, never a violation
-			say("MACHINERY-ERROR watchdog killed worker %d in run %s/%d but the run finishes alone (%s)", spec.idx, cs.Campaign, cs.Run, reason)
-			machineryFailed = true
+			// finished when alone with 3x the budget: a slow run on a loaded machine, never a
+			// violation (a genuine hang is deterministic here and must reproduce alone). Recorded in
+			// the evidence; more than a handful means the watchdog budget is wrong for this machine.
+			ck.mu.Lock()
+			ck.unconfirmedKills++
+			n := ck.unconfirmedKills
+			ck.hangNotes = append(ck.hangNotes, fmt.Sprintf("watchdog killed worker %d in run %s/%d but the run finishes alone (slow under load, not a hang)", spec.idx, cs.Campaign, cs.Run))
+			ck.mu.Unlock()
+			if n > 8 {
+				say("MACHINERY-ERROR %d watchdog kills of runs that finish alone: the per-run budget does not fit this machine", n)
+				machineryFailed = true
+			}
+			if out != nil && out.Viol != nil {
+				full := cs
+				full.Lanes = lanes
+				full.ReplayAll = true
+				ck.addViolation(&core.ReplayFile{Case: full, Violation: out.Viol, Digest: out.Digest, Desc: out.Desc})
+			}
 			return
 		}
 		// the worker died but the run alone is fine: if it reports a violation take that, else machinery
@@ -1176,12 +1192,13 @@ func (ck *checker) writeEvidence(wall time.Duration, nViol int, knownSeen []stri
 			"simulated": "reader/seeker/readerAt device, log sink, callback actors, generic image actor, task scheduler",
 			"stub":      "none",
 		},
-		"known_findings_seen": knownSeen,
-		"watchdog_kills":      ck.watchdogKills,
-		"oom_worker_deaths":   ck.oomDeaths,
-		"distinct_schedules":  distinctSched,
-		"regression_replays":  ck.regressionRan,
-		"workers":             ck.workers,
+		"known_findings_seen":        knownSeen,
+		"watchdog_kills":             ck.watchdogKills,
+		"oom_worker_deaths":          ck.oomDeaths,
+		"watchdog_kills_unconfirmed": ck.unconfirmedKills,
+		"distinct_schedules":         distinctSched,
+		"regression_replays":         ck.regressionRan,
+		"workers":                    ck.workers,
 	}
 	for k, v := range ck.info.Components {
 		cov["component:"+k] = v
